@@ -580,6 +580,7 @@ fn install(fm: &FM) {
 /// L1a: the real `transition` (its own level), nested counter handling by the reference.
 pub(crate) fn l1a_body() {
     set_mode(MODE_L1A);
+    crate::verif::set_family(FAMILY);
     let fm = any_fm();
     install(&fm);
     let mut bufs = RowBufs::new();
@@ -632,6 +633,7 @@ pub(crate) fn l1a_body() {
 /// L1b: the real `update_counter`, the nested machine step by the reference.
 pub(crate) fn l1b_body() {
     set_mode(MODE_L1B);
+    crate::verif::set_family(FAMILY);
     let fm = any_fm();
     install(&fm);
     let mut bufs = RowBufs::new();
@@ -678,6 +680,7 @@ pub(crate) fn l1b_body() {
 /// machine 1's own history only, and the update must not touch machine 0 (C08, C10).
 pub(crate) fn l1b_pair_body() {
     set_mode(MODE_L1B);
+    crate::verif::set_family(FAMILY);
     let fm = any_fm();
     install(&fm);
     let mut bufs = RowBufs::new();
